@@ -70,7 +70,7 @@ func runC09(c *Ctx) error {
 		peers := [][]byte{{}, {1}, {2}, pm1.Bytes(), p.Bytes(), pp1.Bytes(), append([]byte{1}, rng.Bytes(L0)...), rng.Bytes(L0), rng.Bytes(L0 / 2)}
 		for xi, x := range exps {
 			xb := new(big.Int).SetBytes(x)
-			heavy := len(x) > 2 && !(c.Thor && len(x) <= 8) // the extracted Z arithmetic is schoolbook: model queried for small exponents only
+			heavy := len(x) > 2 && !(c.Thor && len(x) <= 3) // the extracted Z arithmetic is schoolbook: model queried for small exponents only (64-bit exponents took > 30 min)
 			cs := fmt.Sprintf("(dh_public %s %s)", g, hx(x))
 			impl := implDhPublic(g, x)
 			r.ImplRuns++
